@@ -7,5 +7,5 @@ CONSTANTS
   Mode = "real"
   Size = "small"
   Kinds = {"P","T","V","C"}
-INVARIANTS InvSingleField InvLen
+INVARIANTS InvSingleField InvLen InvTipSetInjective
 CHECK_DEADLOCK FALSE
